@@ -6,3 +6,48 @@
 /// The allocator interface of the collections, so that a harness can plug in a counting /
 /// failing allocator.
 pub use crate::alloc::{AllocError, AllocProxy, Allocator, CaoLangAllocator, SysAllocator};
+
+/// Read-only views of the interpreter state (the "residue" a run leaves behind).
+#[derive(Debug, Clone, PartialEq, Eq)]
+pub struct Residue {
+    pub value_stack_len: usize,
+    pub call_stack_len: usize,
+    pub globals_len: usize,
+    pub objects: usize,
+    pub open_upvalues: usize,
+    pub allocated: usize,
+    pub next_gc: usize,
+    pub limit: usize,
+}
+
+impl crate::vm::runtime::RuntimeData {
+    pub fn verif_residue(&self) -> Residue {
+        use std::sync::atomic::Ordering;
+        let mut open_upvalues = 0;
+        let mut u = self.open_upvalues;
+        unsafe {
+            while let Some(o) = u.as_ref() {
+                open_upvalues += 1;
+                match o.as_upvalue() {
+                    Some(up) if open_upvalues < 100_000 => u = up.next,
+                    _ => break,
+                }
+            }
+        }
+        Residue {
+            value_stack_len: self.value_stack.len(),
+            call_stack_len: self.call_stack.len(),
+            globals_len: self.global_vars.len(),
+            objects: self.object_list.len(),
+            open_upvalues,
+            allocated: self.memory.allocated.load(Ordering::Relaxed),
+            next_gc: self.memory.next_gc.load(Ordering::Relaxed),
+            limit: self.memory.limit.load(Ordering::Relaxed),
+        }
+    }
+
+    /// copy of the value stack, bottom first
+    pub fn verif_value_stack(&self) -> Vec<crate::value::Value> {
+        self.value_stack.iter().collect()
+    }
+}
